@@ -186,6 +186,26 @@ func ruleC05(c *Ctx, r *Report) {
 	if ph.choke == nil || ph.scalarFn == nil {
 		return
 	}
+	// ---- R5: "exactly the configured --replacement text", "valid for the class": the
+	// placeholder is emitted faithfully only if every string leaf reaches the line through
+	// encoding/json (no escaping shortcut, no rewriting of the encoded bytes)
+	c03Serialiser(c, r, p, "C05-R5")
+	// ---- R2 (per element): what replaces an element is decided on that element - a value
+	// settled by an earlier element of the same array (a placeholder "reused" for the strings
+	// that follow) gives an e-mail the generic placeholder or the other way round
+	{
+		var fns []*ssa.Function
+		for f := range p.Zone {
+			fns = append(fns, f)
+		}
+		sort.Slice(fns, func(i, j int) bool { return fns[i].Name() < fns[j].Name() })
+		for _, f := range fns {
+			for _, ic := range p.walkerLoops(f) {
+				r.Check(len(ic.Carried) == 0, "C05-R2", ic.construct()+":per-element", c.Pos(ic.Loop.Loop.Header.Instrs[0].Pos()),
+					"every stored value is computed from the current element alone", strings.Join(dedupe(ic.Carried), "; "))
+			}
+		}
+	}
 	// ---- R2 selection
 	r.Floor("C05-R2", 7, "five string classes + number + boolean")
 	sf := ph.scalarFn
